@@ -440,6 +440,22 @@ impl<T: Qcow2IoOps> Qcow2Dev<T> {
         let _flush_lock = self.flush_lock.lock().await;
 
         log::debug!("flush_meta: entry");
+
+        // Clear the flag before looking for dirty meta: whatever is dirty
+        // now gets flushed below, and whoever dirties meta while this flush
+        // is running sets the flag again (clearing it at the end would wipe
+        // that out and leave dirty meta behind with the flag cleared).
+        self.mark_need_flush(false);
+        let res = self.__flush_meta().await;
+        if res.is_err() {
+            // something may still be dirty
+            self.mark_need_flush(true);
+        }
+        log::debug!("flush_meta: exit");
+        res
+    }
+
+    async fn __flush_meta(&self) -> Qcow2Result<()> {
         loop {
             // refcount is usually small size & continuous, so simply
             // flush all
@@ -454,11 +470,9 @@ impl<T: Qcow2IoOps> Qcow2Dev<T> {
                 .flush_meta_generic(l1, &self.l2cache, |off| self.l2_slice_key_of_l1_off(off))
                 .await?;
             if done {
-                self.mark_need_flush(false);
                 break;
             }
         }
-        log::debug!("flush_meta: exit");
         Ok(())
     }
 }
